@@ -130,6 +130,12 @@ pub fn run(args: &Args, rep: &mut Report) {
     let mut pal = 0u64;
     let mut resets = 0u64;
     let mut per_k = vec![0u64; 33];
+    if args.case.as_deref() == Some("direct") {
+        let seq = vcommon::string_to_codes(args.get("seq").unwrap_or(""));
+        let k = args.get_u64("k", 3) as usize;
+        check_seq(rep, args, k, &seq, "direct");
+        return;
+    }
     if let Some(c) = &args.case {
         if let Some(i) = c.strip_prefix("rand:").and_then(|s| s.parse::<u64>().ok()) {
             random_case(args, rep, i, &mut per_k, &mut windows, &mut pal, &mut resets);
